@@ -25,6 +25,8 @@ type c10Pool struct {
 	Tree  *rtree.RTree
 	Boxes []rtree.Box
 	Class string
+	Rep   []int  // class pencil: members that hold an exactly repeated segment inside themselves
+	Note  string // class pencil: the concurrency point
 }
 
 type xy struct{ x, y int }
@@ -253,6 +255,18 @@ func affine(k int) func(geom.XY) geom.XY {
 	default:
 		return func(p geom.XY) geom.XY { return geom.XY{X: -p.X, Y: p.Y - 3.5} }
 	}
+}
+
+// genPoolAt draws the shared operands of history number i: every 10th history (i % 10 == 7) is of
+// the class "pencil" (pencil.go); the others are drawn as before (their PRNG streams are unchanged).
+func genPoolAt(i int, r *lib.Rng, st map[string]int) *c10Pool {
+	if i%10 == 7 {
+		p := &c10Pool{}
+		genPencil(r, p, st)
+		finishPool(r, p)
+		return p
+	}
+	return genPool(r, st)
 }
 
 // genPool draws the shared operands of one history.
